@@ -1,5 +1,6 @@
 import GB.C10.Proofs
 import GB.C10.StatusJson
+import GB.C10.OptionsProofs
 import GB.C10.FwdRules
 import GB.C10.StreamWitness
 import GB.C09.Props
@@ -388,7 +389,7 @@ theorem C10_415 (sc : Scenario) (env : Env) (h1 : sc.inj ≠ .router) (h2 : sc.i
     (serve sc env).origin = some .bind := by
   have hb := bind_unsupported registry env.pm sc.accept (sc.rpc == .clientStream) (sc.rpc == .serverStream) hun
   have hw := C10_unbound_plain_text unsupportedMediaTypeErr
-  unfold serve
+  unfold serve serveWith
   simp only [beq_iff_eq, h1, h2, ↓reduceIte, hb]
   simp only [natBindErr, unsupportedMediaTypeErr] at hw ⊢
   simp [failResp, hw]
@@ -442,6 +443,203 @@ theorem C10_decode_law_no_details (ops : GB.C09.FloatOps) (hl : GB.C09.FloatLaws
   injection henc with henc
   subst henc
   exact ⟨h2, h3⟩
+
+/-! ### the option plumbing of the root constructor (GB/C10/Options.lean) -/
+
+/-- facts tie (extract/c10.go, go/ast over bridge.go and transcoding/http.go, regenerated on every run):
+    `NewWebBridge` hands `options.transcoderOpts` to `NewStandardTranscoder` and writes to it nowhere;
+    `WithMarshalers` / `WithDefaultMarshaler` assign their parameter to exactly that field; `withDefaults` assigns
+    `Marshalers` and `DefaultMarshaler` only under `== nil`, to `[DefaultJSONMarshaler]` / `DefaultJSONMarshaler`. -/
+theorem C10_facts_option_plumbing :
+    GB.Generated.c10NewWebBridgeTranscoderArg = "options.transcoderOpts" ∧
+    GB.Generated.c10NewWebBridgeWrites = [] ∧
+    GB.Generated.c10MarshalerOptions =
+      [("WithDefaultMarshaler", "o.transcoderOpts.DefaultMarshaler", "m"), ("WithMarshalers", "o.transcoderOpts.Marshalers", "marshalers")] ∧
+    GB.Generated.c10WithDefaults =
+      [("o.Marshalers == nil", "o.Marshalers", "[]Marshaler{DefaultJSONMarshaler}"),
+       ("o.DefaultMarshaler == nil", "o.DefaultMarshaler", "DefaultJSONMarshaler")] ∧
+    GB.Generated.c10WithDefaultsUnguarded = [] := by decide
+
+/-- **The effective options.** Whatever the option list — `WithMarshalers` / `WithDefaultMarshaler` given or not,
+    repeated, in any order, mixed with options that do not concern the transcoder — after `NewWebBridge` and
+    `withDefaults` the marshaler list is the argument of the LAST `WithMarshalers` (if it is not nil), otherwise exactly
+    `[DefaultJSONMarshaler]`; the default marshaler is the argument of the last `WithDefaultMarshaler` (if not nil),
+    otherwise JSON; the two do not influence each other; a MIME type is served by the last marshaler of the list
+    claiming it. -/
+theorem C10_options_effective (opts : List BOpt) :
+    withDefaults (plumb opts) = (specMarshalers opts, specDefault opts) ∧
+    (effectiveRegistry opts).default = specDefault opts ∧
+    (∀ mime, (effectiveRegistry opts).lookup mime = specLookup opts mime) := by
+  have h : withDefaults (plumb opts) = (specMarshalers opts, specDefault opts) := by
+    rw [plumb_eq]; rfl
+  refine ⟨h, ?_, ?_⟩
+  · simp [effectiveRegistry, registryOf, h]
+  · intro mime
+    simp [effectiveRegistry, registryOf, h, Registry.lookup, specLookup]
+
+/-- **Order independence.** Two option lists with the same sequence of `WithMarshalers` arguments and the same
+    sequence of `WithDefaultMarshaler` arguments — any interleaving of the two kinds, any other options in between —
+    give the same registry (only the last of each kind counts). -/
+theorem C10_options_order_independent (opts opts' : List BOpt)
+    (hm : (opts.filterMap marshalersArg).getLast? = (opts'.filterMap marshalersArg).getLast?)
+    (hd : (opts.filterMap defaultArg).getLast? = (opts'.filterMap defaultArg).getLast?) :
+    effectiveRegistry opts = effectiveRegistry opts' := by
+  simp [effectiveRegistry, plumb_eq, hm, hd]
+
+/-- **JSON is registered by default.** Without `WithMarshalers` (or with its last argument nil), for EVERY choice of
+    `WithDefaultMarshaler`: `application/json` is a registered type — a request with `Content-Type: application/json`
+    is accepted by the JSON marshaler (no 415), and `Accept: application/json` selects JSON for the response and for
+    error bodies, whatever the request's type is. -/
+theorem C10_json_registered_by_default (opts : List BOpt)
+    (h : ((opts.filterMap marshalersArg).getLast?).join = none) :
+    (effectiveRegistry opts).lookup jsonM.mime = some jsonM ∧
+    negotiatedReq (effectiveRegistry opts) [some jsonM.mime] = some jsonM ∧
+    (∀ pm, (negotiatedReq (effectiveRegistry opts) pm).isSome = true →
+      negotiatedResp (effectiveRegistry opts) pm [jsonM.mime] = some jsonM) := by
+  have hl : (effectiveRegistry opts).lookup jsonM.mime = some jsonM := by
+    rw [(C10_options_effective opts).2.2]
+    unfold specLookup specMarshalers
+    rw [h]
+    decide
+  refine ⟨hl, ?_, ?_⟩
+  · simp [negotiatedReq, hl]
+  · intro pm hq
+    cases hr : negotiatedReq (effectiveRegistry opts) pm with
+    | none => rw [hr] at hq; cases hq
+    | some q => simp [negotiatedResp, hl, hr]
+
+/-- The negotiated marshaler is always one the options put in force: a member of the list, or the default. -/
+theorem C10_options_negotiated_in_force (opts : List BOpt) (pm : List (Option Bytes)) (acc : List Bytes) (m : Marshaler)
+    (h : negotiatedResp (effectiveRegistry opts) pm acc = some m) :
+    m ∈ specMarshalers opts ∨ m = specDefault opts := by
+  have := negotiatedResp_mem _ pm acc m h
+  have he := C10_options_effective opts
+  rcases this with h1 | h1
+  · left
+    have : (effectiveRegistry opts).marshalers = (specMarshalers opts).reverse := by
+      simp [effectiveRegistry, registryOf, he.1]
+    rw [this] at h1
+    exact List.mem_reverse.1 h1
+  · right; rw [h1, he.2.1]
+
+/-- `C10_failure` for a transcoder over ANY marshaler registry (the e2e theorems above are the instance `registry`). -/
+theorem C10_failure_registry (reg : Registry) (sc : Scenario) (env : Env) (hg : sc.gone = false) (o : Origin) (e : RawErr)
+    (ho : (serveWith reg sc env).origin = some o) (he : (serveWith reg sc env).err = some e) :
+    (serveWith reg sc env).status = wantStatus e ∧ (serveWith reg sc env).bound = o.bound ∧
+    (o.bound = false →
+      (serveWith reg sc env).ct = some textPlain ∧ (serveWith reg sc env).nosniff = true ∧
+      (serveWith reg sc env).body = .bytes ((convert e).msg ++ [10])) ∧
+    (o.bound = true → ∃ m, negotiatedResp reg env.pm sc.accept = some m ∧
+      (∀ data, env.stEnc (convert e) = .ok data →
+        (serveWith reg sc env).ct = some m.mime ∧ (serveWith reg sc env).nosniff = false ∧ (serveWith reg sc env).body = .bytes data) ∧
+      (∀ terr, env.stEnc (convert e) = .error terr →
+        (serveWith reg sc env).ct = some textPlain ∧ (serveWith reg sc env).nosniff = true ∧
+        (serveWith reg sc env).body = .bytes (fallbackText (convert e) terr))) := by
+  refine serveWith_ind reg sc env (fun r => r.origin = some o → r.err = some e →
+    r.status = wantStatus e ∧ r.bound = o.bound ∧
+    (o.bound = false → r.ct = some textPlain ∧ r.nosniff = true ∧ r.body = .bytes ((convert e).msg ++ [10])) ∧
+    (o.bound = true → ∃ m, negotiatedResp reg env.pm sc.accept = some m ∧
+      (∀ data, env.stEnc (convert e) = .ok data → r.ct = some m.mime ∧ r.nosniff = false ∧ r.body = .bytes data) ∧
+      (∀ terr, env.stEnc (convert e) = .error terr →
+        r.ct = some textPlain ∧ r.nosniff = true ∧ r.body = .bytes (fallbackText (convert e) terr)))) ?_ ?_ ?_ ho he
+  · intro o' g e' hb hgone ho he
+    have hgf : g = false := by cases g <;> simp_all
+    subst hgf
+    obtain ⟨h1, h2, _, _⟩ := failResp_fields o' false none e' []
+    rw [h1] at ho; rw [h2] at he
+    injection ho with ho; injection he with he; subst ho; subst he
+    have hw := C10_unbound_plain_text e'
+    simp [failResp, hw, hb]
+  · intro b o' g t e' h hbind hb hgone hst hm ho he
+    have hgf : g = false := by cases g <;> simp_all
+    subst hgf
+    obtain ⟨h1, h2, _, _⟩ := failResp_fields o' false (some t) e' h
+    rw [h1] at ho; rw [h2] at he
+    injection ho with ho; injection he with he; subst ho; subst he
+    obtain ⟨_, hneg, _⟩ := bind_ok_negotiated _ _ _ _ _ _ hbind
+    cases henc : t.status (convert e') with
+    | ok data =>
+      have hw := C10_bound_status_body t e' data henc
+      simp [failResp, hw, hb, hneg, ← hst, henc, hm]
+    | error terr =>
+      have hw : writeError false false (some t) e' = .resp (wantStatus e') (some textPlain) true (fallbackText (convert e') terr) := by
+        simp [writeError, transcodeError_err t e' terr henc]
+      simp [failResp, hw, hb, hneg, ← hst, henc]
+  · intro b r _ hs ho
+    rw [hs.1] at ho; cases ho
+
+
+/-- `C10_failure_body` for any registry. -/
+theorem C10_failure_body_registry (reg : Registry) (sc : Scenario) (env : Env) (hg : sc.gone = false) (o : Origin) (e : RawErr)
+    (ho : (serveWith reg sc env).origin = some o) (he : (serveWith reg sc env).err = some e)
+    (dec : Bytes → Option St)
+    (hlaw : ∀ st b, env.stEnc st = .ok b → dec b = some st ∧ b ≠ []) :
+    ∃ b, (serveWith reg sc env).body = .bytes b ∧ b ≠ [] ∧
+      ((o.bound = true ∧ (serveWith reg sc env).nosniff = false ∧ dec b = some (convert e)) ∨
+       ((serveWith reg sc env).ct = some textPlain ∧ (convert e).msg <:+: b)) := by
+  obtain ⟨_, _, hu, hb⟩ := C10_failure_registry reg sc env hg o e ho he
+  cases hbo : o.bound with
+  | false =>
+    obtain ⟨hct, _, hbody⟩ := hu hbo
+    exact ⟨_, hbody, by simp, Or.inr ⟨hct, infix_append_right _ _ _ (List.infix_refl _)⟩⟩
+  | true =>
+    obtain ⟨m, _, hok, herr⟩ := hb hbo
+    cases henc : env.stEnc (convert e) with
+    | ok data =>
+      obtain ⟨_, hns, hbody⟩ := hok data henc
+      obtain ⟨hd, hne⟩ := hlaw _ _ henc
+      exact ⟨_, hbody, hne, Or.inl ⟨rfl, hns, hd⟩⟩
+    | error terr =>
+      obtain ⟨hct, _, hbody⟩ := herr terr henc
+      exact ⟨_, hbody, fallbackText_ne_nil _ _, Or.inr ⟨hct, msg_infix_fallbackText _ _⟩⟩
+
+
+/-- **Error-body corollary for a WebBridge built from options.** For every option list: a failure after binding is
+    rendered by the marshaler negotiated over the registry the options put in force (`m`, a member of the effective list
+    or the effective default) — Content-Type `m.mime`, the body that marshaler's transcoder produced — and, with a
+    transcoder whose Status bodies decode back, the body is non-empty and decodes with it to exactly the status (or is
+    the readable text when it cannot be encoded). -/
+theorem C10_options_error_body (opts : List BOpt) (sc : Scenario) (env : Env) (hg : sc.gone = false) (o : Origin)
+    (e : RawErr) (ho : (serveWith (effectiveRegistry opts) sc env).origin = some o)
+    (he : (serveWith (effectiveRegistry opts) sc env).err = some e) (hb : o.bound = true)
+    (dec : Bytes → Option St) (hlaw : ∀ st b, env.stEnc st = .ok b → dec b = some st ∧ b ≠ []) :
+    ∃ m, negotiatedResp (effectiveRegistry opts) env.pm sc.accept = some m ∧
+      (m ∈ specMarshalers opts ∨ m = specDefault opts) ∧
+      (∀ data, env.stEnc (convert e) = .ok data →
+        (serveWith (effectiveRegistry opts) sc env).ct = some m.mime ∧
+        (serveWith (effectiveRegistry opts) sc env).body = .bytes data ∧ dec data = some (convert e) ∧ data ≠ []) ∧
+      (∀ terr, env.stEnc (convert e) = .error terr →
+        (serveWith (effectiveRegistry opts) sc env).ct = some textPlain ∧
+        (serveWith (effectiveRegistry opts) sc env).body = .bytes (fallbackText (convert e) terr)) := by
+  obtain ⟨_, _, _, hbound⟩ := C10_failure_registry (effectiveRegistry opts) sc env hg o e ho he
+  obtain ⟨m, hneg, hok, herr⟩ := hbound hb
+  refine ⟨m, hneg, C10_options_negotiated_in_force opts _ _ m hneg, ?_, ?_⟩
+  · intro data hd
+    obtain ⟨h1, _, h3⟩ := hok data hd
+    obtain ⟨h4, h5⟩ := hlaw _ _ hd
+    exact ⟨h1, h3, h4, h5⟩
+  · intro terr ht
+    obtain ⟨h1, _, h3⟩ := herr terr ht
+    exact ⟨h1, h3⟩
+
+/-- a custom text codec used in the witnesses below -/
+example : (effectiveRegistry m5Opts).lookup jsonM.mime = some jsonM := by
+  decide
+
+/-- **What is wrong with C10-m5** (kernel-checked). With only `WithDefaultMarshaler(custom)`: the variant's list is
+    `[custom]`, JSON is gone — `Content-Type: application/json` finds no marshaler (⇒ 415) and `Accept: application/json`
+    is ignored (the custom marshaler renders the response and every error body), whereas the code as it is keeps JSON
+    registered and answers both with JSON. With `WithMarshalers` given, or a JSON default, the variant agrees. -/
+theorem C10_m5_drops_json :
+    (withDefaults (plumbM5 m5Opts)).1 = [m5Custom] ∧
+    (registryOf (plumbM5 m5Opts)).lookup jsonM.mime = none ∧
+    negotiatedReq (registryOf (plumbM5 m5Opts)) [some jsonM.mime] = none ∧
+    negotiatedResp (registryOf (plumbM5 m5Opts)) [] [jsonM.mime] = some m5Custom ∧
+    negotiatedReq (effectiveRegistry m5Opts) [some jsonM.mime] = some jsonM ∧
+    negotiatedResp (effectiveRegistry m5Opts) [] [jsonM.mime] = some jsonM ∧
+    registryOf (plumbM5 [.withMarshalers (some [jsonM]), .withDefault (some jsonM)]) =
+      effectiveRegistry [.withMarshalers (some [jsonM]), .withDefault (some jsonM)] := by
+  decide
 
 /-! ### a unary target that answers first and fails afterwards -/
 
